@@ -173,6 +173,8 @@ def make_stream(
         writing = True
 
     encoding = None if binary else (encoding or "utf-8")
+    if buffering == 0 and not binary:
+        raise ValueError("can't have unbuffered text I/O")
 
     io_object = RawWrapper(bin_file, mode=mode, name=name)  # type: io.IOBase
     if buffering >= 0:
